@@ -739,7 +739,7 @@ def run(ctx):
                        "heaps are acyclic, the F14 triggers are fixed corpus cases; non-trivial = some handler call "
                        "observed; distinct = distinct operation list")
     rnd = random.Random(ctx.seed)
-    n, maxmut = (500, 8) if ctx.tier == "quick" else (7000, 14)
+    n, maxmut = (500, 8) if ctx.tier == "quick" else (6000, 14)
     if ctx.replay:
         cases = [json.load(open(ctx.replay))["replay"]["case"]]
     else:
